@@ -128,3 +128,4 @@ TRUSTED = ["np.tensordot(a, b, 2), np.transpose, np.where, broadcasting as in th
            "the derivative characterisation (score == d/de of the UBM log-likelihood of the test data along ubm + e (model - ubm) at e = 0) "
            "follows from C08.post and C02.estep by the chain rule for LSE; the calculus step itself is not machine-checked"]
 ASSUMPTIONS = ["UBM variances > 0"]
+XCHECK = ['linear']
